@@ -121,6 +121,7 @@ def check_case(case):
         wt = coreops.build_model(spec)
         method = case["method"]
         if method == "pfba":
+            fbagen.prior_history(wt, case.get("history"))
             (lp, rids, mids, sign) = fbagen.net_lp(spec, obj=case.get("objective"))
             truth = lpcert.certify([lp])[0]
             if truth["status"] != "optimal":
@@ -180,6 +181,7 @@ def check_case(case):
         rids = [r["id"] for r in spec["rxns"]]
         ko_spec = knock(spec, case["ko"]) if case.get("ko") else spec
         m = coreops.build_model(ko_spec)
+        fbagen.prior_history(m, case.get("history"))
         if case.get("ref_order") == "model_reversed":
             m.reactions.reverse()                            # the model's own list order differs from the reference's
         given = refsol if case["give_reference"] else None
@@ -316,7 +318,7 @@ def gen_case(rng):
     spec = gen_bounded_spec(rng)
     rids = [r["id"] for r in spec["rxns"]]
     method = rng.choice(["pfba", "pfba", "pfba", "moma", "moma", "room_linear", "room"])
-    case = {"spec": spec, "method": method}
+    case = {"spec": spec, "method": method, "history": rng.choice(fbagen.HISTORIES)}
     if method == "pfba":
         case["fraction"] = rng.choice(["1", "1", "1/2", "9/10", "0", "0"])
         if case["fraction"] == "0" and rng.random() < 0.6:
